@@ -441,7 +441,12 @@ func (e *SpecEnv) evalBinary(n EBinary) Val {
 	case "==>":
 		return boolVal(implies(e.evalB(n.X), e.evalB(n.Y)))
 	case "<==>":
-		return boolVal(eq(e.evalB(n.X), e.evalB(n.Y)))
+		a, b := e.evalB(n.X), e.evalB(n.Y)
+		if strings.Contains(a, "(forall ") || strings.Contains(a, "(exists ") || strings.Contains(b, "(forall ") || strings.Contains(b, "(exists ") {
+			// two implications keep quantifiers in positions of definite polarity
+			return boolVal(and(implies(a, b), implies(b, a)))
+		}
+		return boolVal(eq(a, b))
 	case "in":
 		k := e.eval(n.X)
 		m := e.eval(n.Y)
